@@ -824,7 +824,7 @@ func (c *Ctx) inmemExpiry(r *inmemRoles, rule string) {
 					okAll = false
 				}
 			})
-			c.Decide(rule, fn, "range over the table filters expired records", in, found && okAll, "keys are collected from the record table without the expiry decision: expired keys are listed")
+			c.Decide(rule, fn, "range over the table filters expired records", in, (found && okAll) || (!found && r.rangeOnlyDecidesU(rg)), "keys are collected from the record table without the expiry decision: expired keys are listed")
 		})
 	}
 	// reads made through the live-lookup helpers count at their call sites
@@ -1137,7 +1137,8 @@ func (c *Ctx) inmemWaitRules(r *inmemRoles, w2, w3, w4, w5, w6 string) {
 			if cc := builtinCall(in, "delete"); cc != nil {
 				isDel = r.isWaitersVal(cc.Args[0])
 			}
-			if !isClose && !isDel {
+			isTeardown := r.withdrawTeardownU(fn, in, decs) // close + forget done by the notifier on behalf of a withdrawing waiter
+			if !isClose && !isDel && !isTeardown {
 				return
 			}
 			lastWaiter := hasFactCmp(in.Block(), func(cm ir.Cmp) bool {
@@ -1160,6 +1161,9 @@ func (c *Ctx) inmemWaitRules(r *inmemRoles, w2, w3, w4, w5, w6 string) {
 			what := "close of the shared channel"
 			if isDel {
 				what = "removal of the waiter entry"
+			}
+			if isTeardown {
+				what = "teardown of the waiter entry through the notifier"
 			}
 			c.Decide(w4, fn, "cancel: "+what+" only as last waiter", in, lastWaiter, "a cancelling waiter tears the shared entry down although other waiters remain: they are woken spuriously or never")
 			c.Decide(w4, fn, "cancel: "+what+" only of the entry still registered", in, identity, "a cancelling waiter tears down whatever entry is registered now, not the one it registered on: a newer waiter's entry is destroyed and that waiter misses every later change")
@@ -1253,6 +1257,9 @@ func (c *Ctx) inmemWaitRules(r *inmemRoles, w2, w3, w4, w5, w6 string) {
 						_, isSel := ex.Tuple.(*ssa.Select)
 						return isSel
 					})
+					if !okG {
+						okG = ctxErrKnownU(fn, e, call) // the context was seen to have ended: ctx.Err() != nil on the way
+					}
 					if !okG {
 						// per path: a flag set in the ctx.Done() case and tested behind the select
 						w, perr := (ir.PathQuery{Fn: fn, Target: func(x ssa.Instruction, val *ir.Valuation) bool {
